@@ -277,10 +277,34 @@ class LibHooks(Hooks):
                 self.obligation(st, 'INV-J', True, ins, 'cell invariant J at loop back edge', '')
             st.tags[('dirty', 'STATE')] = frozenset()
 
+    def before_join(self, st, fn, why):
+        if st.tags.get('J') and st.regions.get('STATE') is not None:
+            ec = self.error_const(st)
+            if ec == 0:
+                bad = self.check_J(st, why)
+                ins = fn.entry.instrs[0]
+                for b in bad:
+                    self.obligation(st, 'INV-J', False, ins, 'cell invariant J at %s: %s' % (why, b), '')
+                if not bad:
+                    self.obligation(st, 'INV-J', True, ins, 'cell invariant J at %s' % why, '')
+                st.tags[('dirty', 'STATE')] = frozenset()
+
+    def error_const(self, st):
+        o, sz = self.lay.parser['error_flags']
+        c = (st.cells('P') or {}).get(((o, ()), sz))
+        if c is None or not isinstance(c[2], Int):
+            return None
+        return st.store.const_of(c[2].a)
+
     def on_forget(self, st, r, off, size, val, ins):
         if r.name == 'STATE' and st.tags.get('J'):
-            self.obligation(st, 'INV-J', False, ins,
-                            'store may alias state-array cell [%r,+%d) that cannot be tracked (cell invariant J not re-established)' % (off, size), '')
+            # a store may alias a tracked cell: the cell is forgotten, so the invariant must hold for
+            # everything written so far (checked now), after which the default "unknown under J" is sound
+            bad = self.check_J(st, 'may-alias store')
+            for b in bad:
+                self.obligation(st, 'INV-J', False, ins, 'cell invariant J before a may-alias store forgets [%r,+%d): %s' % (off, size, b), '')
+            if not bad:
+                self.obligation(st, 'INV-J', True, ins, 'cell invariant J re-checked before a may-alias store', '')
 
 
 class Contracts:
@@ -549,3 +573,115 @@ class Contracts:
         class _F:
             name = '<root>'
         return Frame(_F, None, 0)
+
+
+# ------------------------------------------------------------------------------------------------
+# exit obligations (INV-EXIT): A0 always, A1 and J where error_flags == NONE
+
+def _cell(st, region, off, size):
+    c = (st.cells(region) or {}).get(((off, ()), size))
+    return c[2] if c is not None else None
+
+
+def check_exit(C, st, fname, ret):
+    """-> list of (ok, kind, what) for one exit disjunct of public parser function fname"""
+    lay = C.lay
+    F = lay.parser
+    S = st.store
+    out = []
+
+    def fld(name):
+        return _cell(st, 'P', F[name][0], F[name][1])
+    if 'P' not in st.regions or 'STATE' not in st.regions:
+        return out
+    bufr = st.regions['BUF']
+    sreg = st.regions['STATE']
+    # ---- A0
+    v = fld('state')
+    out.append((isinstance(v, Ptr) and v.region == 'STATE' and S.entails_eq0(v.off), 'INV-A0', 'parser->state still points to the state array'))
+    v = fld('max_depth')
+    out.append((isinstance(v, Int) and S.entails_eq0(v.a.mul(lay.ssize).sub(sreg.length)) and S.entails_ge0(v.a.sub(1)),
+                'INV-A0', 'parser->max_depth equals the number of state entries (>= 1)'))
+    v = fld('buffer')
+    out.append((isinstance(v, Ptr) and v.region == 'BUF' and S.entails_eq0(v.off), 'INV-A0', 'parser->buffer points to the input buffer'))
+    v = fld('buffer_size')
+    out.append((isinstance(v, Int) and S.entails_eq0(v.a.sub(bufr.length)), 'INV-A0', 'parser->buffer_size equals the buffer length'))
+    v = fld('type')
+    out.append((isinstance(v, Int) and S.entails_ge0(v.a.sub(1)) and S.entails_ge0(v.a.neg().add(2)), 'INV-A0', 'parser->type is object or array'))
+    v = fld('cb')
+    out.append((isinstance(v, Null), 'INV-A0', 'parser->cb is NULL outside print/to_string'))
+    # ---- A1 / J only while no error is latched
+    ev = fld('error_flags')
+    if not isinstance(ev, Int):
+        out.append((False, 'INV-A1', 'parser->error_flags is not an integer value at exit'))
+        return out
+    if S.entails_ge0(ev.a.sub(1)):
+        return out
+    if not S.entails_eq0(ev.a):
+        st = st.copy()
+        S = st.store
+        if not S.assume_eq0(ev.a):
+            return out
+    bs = fld('buffer_size')
+    used = fld('buffer_used')
+    d = fld('depth')
+    md = fld('max_depth')
+    cs = fld('current_state')
+    ok = isinstance(bs, Int) and S.entails_ge0(bs.a.sub(2))
+    out.append((ok, 'INV-A1', 'buffer_size >= 2 while no error is latched'))
+    ok = isinstance(used, Int) and isinstance(bs, Int) and S.entails_ge0(bs.a.sub(used.a))
+    out.append((ok, 'INV-A1', 'buffer_used <= buffer_size at exit (%r vs %r)' % (used, bs)))
+    ok = isinstance(d, Int) and isinstance(md, Int) and S.entails_ge0(md.a.sub(d.a))
+    out.append((ok, 'INV-A1', 'depth <= max_depth at exit (%r vs %r)' % (d, md)))
+    ok = False
+    if isinstance(cs, Ptr) and cs.region == 'STATE' and isinstance(d, Int):
+        if S.entails_eq0(d.a):
+            ok = S.entails_eq0(cs.off)
+        elif S.entails_ge0(d.a.sub(1)):
+            ok = S.entails_eq0(cs.off.sub(d.a.sub(1).mul(lay.ssize)))
+        else:
+            s0 = st.copy()
+            s1 = st.copy()
+            ok = True
+            if s0.store.assume_eq0(d.a):
+                ok = ok and s0.store.entails_eq0(cs.off)
+            if s1.store.assume_ge0(d.a.sub(1)):
+                ok = ok and s1.store.entails_eq0(cs.off.sub(d.a.sub(1).mul(lay.ssize)))
+    out.append((ok, 'INV-A1', 'current_state == &state[depth > 0 ? depth-1 : 0] at exit (%r, depth %r)' % (cs, d)))
+    if st.tags.get('J') or True:
+        bad = C.hooks.check_J(st, 'exit of %s' % fname)
+        if not st.tags.get('J') and not bad:
+            # J was not assumed on entry (error disjunct / init): it must have been established by a full wipe
+            dz = st.tags.get(('default', 'STATE')) == 'zero'
+            out.append((dz, 'INV-J', 'state array fully initialised when the error flag is cleared'))
+        for b in bad:
+            out.append((False, 'INV-J', 'cell invariant J at exit: ' + b))
+        if not bad:
+            out.append((True, 'INV-J', 'cell invariant J at exit'))
+    return out
+
+
+def check_span_out(C, st, fname, ret):
+    """SPAN obligations on values handed back to the caller"""
+    lay = C.lay
+    S = st.store
+    out = []
+    P = lay.ptr
+    if 'OUT' in st.regions and isinstance(ret, Int) and S.const_of(ret.a) == 1:
+        bs = _cell(st, 'OUT', lay.bbuf['bsize'][0], P)
+        bp = _cell(st, 'OUT', lay.bbuf['bptr'][0], P)
+        bufr = st.regions['BUF']
+        ok = isinstance(bs, Int) and isinstance(bp, Ptr) and bp.region == 'BUF' and S.entails_ge0(bp.off) and \
+            S.entails_ge0(bufr.length.sub(bp.off).sub(bs.a))
+        out.append((ok, 'SPAN', 'raw span handed back by %s lies inside the buffer (bptr=%r bsize=%r)' % (fname, bp, bs)))
+    if isinstance(ret, Ptr) and ret.region == 'STATE':
+        bs = (st.cells('STATE') or {}).get((ret.off.add(lay.bbuf['bsize'][0]).key(), P))
+        bp = (st.cells('STATE') or {}).get((ret.off.add(lay.bbuf['bptr'][0]).key(), P))
+        if bs is not None and bp is not None:
+            ok = C.hooks.is_span(st, bs[2], bp[2])
+            out.append((ok, 'SPAN', 'bbuf returned by %s is NULL/0 or a span inside the buffer (bptr=%r bsize=%r)' % (fname, bp[2], bs[2])))
+        else:
+            out.append((bool(st.tags.get('J')), 'SPAN', 'bbuf returned by %s is covered by the cell invariant J' % fname))
+    elif isinstance(ret, Ptr) and ret.region not in ('STATE',):
+        out.append((False, 'SPAN', '%s returns a pointer into region %s' % (fname, ret.region)))
+    return out
